@@ -215,7 +215,7 @@ theorem stops_renderNode (c : RCtx) (hc : IncOk c) : ∀ n : Node, StopsM (rende
     refine stopsM_wrapFailAt _ _ (stopsM_bind (stopsM_getVar _) (fun lv => ?_))
     split
     · exact stopsM_fail _
-    · exact stopsM_bind (stopsM_setVar _ _) (fun _ => stopsM_bind (stopsM_write _) (fun _ => stopsM_pure _))
+    · exact stopsM_bind (stopsM_setVar _ _) (fun _ => stopsM_bind (stopsM_writeVerbatim _) (fun _ => stopsM_pure _))
   | .brk line => by unfold renderNode; exact stopsM_pure _
   | .cont line => by unfold renderNode; exact stopsM_pure _
   | .incl line args => by
@@ -229,7 +229,7 @@ theorem stops_renderNode (c : RCtx) (hc : IncOk c) : ∀ n : Node, StopsM (rende
         exact Stops.bind (hc _ _ _) (fun _ => .ret _)
       · obtain ⟨st, out⟩ := r
         cases st with
-        | done => exact stopsM_bind (stopsM_write _) (fun _ => stopsM_pure _)
+        | done => exact stopsM_bind (stopsM_writeVerbatim _) (fun _ => stopsM_pure _)
         | brk e => exact stopsM_pure _
         | cont e => exact stopsM_pure _
     · exact stopsM_fail _
